@@ -695,7 +695,9 @@ def run_request(feats: List[Any], fw: str, classes: Set[Any], timeout: float = 8
         raise RunTimeout()
 
     old = signal.signal(signal.SIGALRM, _alarm)
-    signal.setitimer(signal.ITIMER_REAL, timeout)
+    # repeating: a first alarm that lands at the recursion limit (Feature.__hash__ deep-copies nested options) becomes a RecursionError,
+    # which mloda's Options.__deepcopy__ swallows - the next tick raises again
+    signal.setitimer(signal.ITIMER_REAL, timeout, 0.5)
     try:
         try:
             res = mloda.run_all(list(feats), compute_frameworks={F.FRAMEWORKS[fw]}, plugin_collector=F.collector(set(classes)), function_extender={tr})
